@@ -37,6 +37,7 @@ Event(ev) ==
          [] ev.ev = "disconnect" -> Disconnect(ev.a, ev.b)
          [] ev.ev = "destroy" -> Destroy(ev.a)
          [] ev.ev = "destroy_from" -> DestroyFrom(ev.a, ev.b)
+         [] ev.ev = "destroy_none" -> DestroyNone(ev.a)
          [] ev.ev = "dropref" -> DropRef(ev.a)
          [] OTHER -> FALSE
     /\ ev.raised = FALSE
